@@ -269,13 +269,23 @@ def run(ctx: fw.Ctx) -> int:
                      observed=strip_own(stored_body, ak, sp), expected=strip_own(baseline, ak, sp), sig='isolation')
 
         # ---------- purge ----------
-        which = r.randrange(3)
+        which = r.randrange(4)
         if which == 0:      # record on the server, fresh patch
             pb, pp = stored_body, patches.Patch({})
         elif which == 1:    # record only in the pending patch
             pb, pp = raw_body, patches.Patch(copy.deepcopy(p_store))
-        else:               # nothing anywhere
+        elif which == 2:    # nothing anywhere
             pb, pp = raw_body, patches.Patch({})
+        else:               # another handler's record is pending in the cycle's shared patch (C16_isolation_purge)
+            pb, pp = r.choice([stored_body, raw_body]), patches.Patch({})
+            try:
+                storage.store(key='sib.' + key, record=G.record(), body=bodies.Body(pb), patch=pp)
+                if r.random() < 0.5:
+                    storage.store(key=key, record=record, body=bodies.Body(pb), patch=pp)
+                ctx.count('purge_pending', 'sibling-record')
+            except (TypeError, KeyError, AttributeError, ValueError):
+                pp = patches.Patch({})
+                ctx.count('purge_pending', 'none')
         pp_in = copy.deepcopy(dict(pp))
         kind, _ = canon.run_res(lambda: storage.purge(key=key, body=bodies.Body(pb), patch=pp))
         pp_out = copy.deepcopy(dict(pp))
